@@ -41,6 +41,8 @@ LIT = "one"
 VERBOSE = (0, 1, 2, True, False)
 MODES = ("min", "max", "min")
 PAIR = [1, 1.0]
+GROWN = ("adam", "sgd")
+GROWN += ("rmsprop",)
 
 
 def src(p: float = 1.5, q: bool = True):
@@ -70,7 +72,7 @@ OUTPUT_SRCS = [
     "def x():\n    return 1\n\n\nclass s(object):\n    pass\n\n\nclass A(object):\n    x: str = 'old'\n    s: int = 1\n",
 ]
 INPUT_PARAMS = ["In.x", "In.s", "In.e", "src.p", "src.q"]
-EVAL_PARAMS = ["LIT", "VERBOSE", "MODES", "PAIR"]
+EVAL_PARAMS = ["LIT", "VERBOSE", "MODES", "PAIR", "GROWN"]  # GROWN: extended after its last plain assignment
 
 
 def locate(tree, dotted):
@@ -264,6 +266,21 @@ def structural_lookup(run):
     run.add("C13/structural/it2literal/one-member-per-element-in-order", UNDECIDED if ok2 is None else (PROVED if ok2 else REFUTED), "rule-engine", detail=detail2)
     if ok2 is False:
         out.append(("C13/structural/it2literal/one-member-per-element-in-order", detail2))
+    # --input-eval: "receives the Literal of the EVALUATED input value" -- the value the name has after the whole input module
+    # ran.  What is compiled and executed is the input module the caller parsed (the parameter input_ast itself, never
+    # re-bound, never a slice of its body)
+    sp, _s, _p = extract.find_def("cdd.compound.sync_properties", "sync_property")
+    ok4, detail4 = None, "sync_property not found"
+    if sp is not None:
+        comps_ = [n for n in ast.walk(sp) if isinstance(n, ast.Call) and isinstance(n.func, ast.Name) and n.func.id == "compile"]
+        params_ = {a.arg for a in sp.args.args + sp.args.kwonlyargs}
+        stores_ = {n.id for n in ast.walk(sp) if isinstance(n, ast.Name) and isinstance(n.ctx, ast.Store)}
+        ok4 = len(comps_) == 1 and bool(comps_[0].args) and isinstance(comps_[0].args[0], ast.Name) and comps_[0].args[0].id == "input_ast" and "input_ast" in params_ and "input_ast" not in stores_
+        detail4 = ("the one compile() of sync_property compiles its parameter input_ast (the whole parsed input module), which is never re-bound" if ok4
+                   else "sync_property compiles: %s" % [ast.unparse(c.args[0])[:80] if c.args else "?" for c in comps_])
+    run.add("C13/structural/sync_property/input-eval-runs-the-whole-input-module", UNDECIDED if ok4 is None else (PROVED if ok4 else REFUTED), "rule-engine", detail=detail4)
+    if ok4 is False:
+        out.append(("C13/structural/sync_property/input-eval-runs-the-whole-input-module", detail4))
     return out
 
 
